@@ -1,7 +1,7 @@
 """C15 — mem conversions: partial-output contracts and pairing structure (structural clauses D1–D3)."""
 import os, re
 from mirlib import *
-import r_effect, t_writeonly, r_surr, r_lookahead, factsbuild, scan, r_kernel, r_utf8store
+import r_effect, t_writeonly, r_surr, r_lookahead, factsbuild, scan, r_kernel, r_utf8store, r_dim
 
 MANIFEST = {
     'category': 'other',
@@ -24,7 +24,8 @@ MANIFEST = {
             'function with its own twin (or stores the current unit), the position counter advances by exactly the element width and offending '
             'units are reported at counter + in-stride position; stride functions answer None only when passed tests cover the whole stride. '
             'Exactness of the converted values (arithmetic, SIMD lane operations) is not decided here. ' 
-            '(R-UTF8STORE) the hand-inlined UTF-8 writers (convert_utf16_to_utf8_partial_inner/_tail behind every UTF-16 -> UTF-8 conversion and the UTF-8 encoder, convert_latin1_to_utf8_partial, convert_unaligned_utf16_to_utf8 of the UTF-16 decoder, and the three multi-byte writers of Utf8Destination) store, for every scalar of the domain the path conditions leave (80-7FF, 800-FFFF, the supplementary planes through the shape-checked surrogate-pair formula), exactly the bytes of its UTF-8 encoding: each stored byte is evaluated as an exact piecewise function of the input and compared piece by piece over the whole domain; constant runs are one complete sequence (EF BF BD).',
+            '(R-UTF8STORE) the hand-inlined UTF-8 writers (convert_utf16_to_utf8_partial_inner/_tail behind every UTF-16 -> UTF-8 conversion and the UTF-8 encoder, convert_latin1_to_utf8_partial, convert_unaligned_utf16_to_utf8 of the UTF-16 decoder, and the three multi-byte writers of Utf8Destination) store, for every scalar of the domain the path conditions leave (80-7FF, 800-FFFF, the supplementary planes through the shape-checked surrogate-pair formula), exactly the bytes of its UTF-8 encoding: each stored byte is evaluated as an exact piecewise function of the input and compared piece by piece over the whole domain; constant runs are one complete sequence (EF BF BD). ' 
+            '(R-DIM) dimension inference over the index arithmetic of the 40-odd slice-to-slice converter bodies (mem, utf_8, ascii, single_byte, x_user_defined, the unaligned UTF-16 helpers): every usize quantity is a source position/length, a destination position/length, a count valid in both or a constant (least fixpoint over the loop-carried locals, seeded by which buffer a local indexes); no sum or difference mixes a source and a destination quantity, each buffer is indexed and re-sliced only with its own quantities, a (read, written) result returns a source quantity first and a destination quantity second, and a single local indexes both buffers only in the three 1:1 conversions (frozen with reasons).',
     'note': 'Trusted: rustc MIR, mirx, rule library; the doc comments of src/mem.rs as the statement of the partial-output contract.',
     'technique': 'per-configuration effect analysis over the call graph + information-flow rule + exact interval extraction of surrogate tests',
 }
@@ -81,4 +82,5 @@ def run(rep, facts, tier):
         scan.run_specs(rep, f, c, 'R-SCAN', ['mem::utf16_valid_up_to', 'utf_8::convert_utf8_to_utf16_up_to_invalid'])
         r_kernel.run(rep, f, c, 'R-KERNEL', ['copy', 'validate'])
         r_utf8store.run(rep, f, c)
+        r_dim.run(rep, f, c)
     return ('other', MANIFEST['text'], [])
